@@ -33,7 +33,7 @@ func runC06(c *Ctx) {
 
 func runC06Hit(c *Ctx, a *attackAnchors) {
 	hit := a.Hit
-	dos := callsNamed(hit, "(*net/http.Client).Do")
+	dos := callsNamedI(hit, "(*net/http.Client).Do")
 	if len(dos) != 1 {
 		c.Undecided("anchor:lib.hit:client.Do", "anchors resolve", fmt.Sprintf("%d client.Do calls in hit", len(dos)), c.fnAt(hit))
 		return
@@ -70,7 +70,7 @@ func runC06Hit(c *Ctx, a *attackAnchors) {
 	// ---- body closed
 	const rClose = "the response body is closed on every exit after client.Do succeeded: defer r.Body.Close() is registered on the success edge before anything that can return"
 	var closeDefer *ssa.Defer
-	eachInstr(hit, func(i ssa.Instruction) {
+	eachInstrI(hit, func(i ssa.Instruction) {
 		if d, ok := i.(*ssa.Defer); ok && d.Call.IsInvoke() && d.Call.Method.Name() == "Close" && isRespBody(d.Call.Value) {
 			closeDefer = d
 		}
@@ -179,7 +179,9 @@ func runC06Hit(c *Ctx, a *attackAnchors) {
 			}
 		})
 	}
-	if errCell == nil {
+	if errCell == nil && c06ErrorReturnStyle(c, hit, rErr) {
+		// error-return style handled
+	} else if errCell == nil {
 		c.Fail("no-lost-error:(*lib.Attacker).hit", rErr, "the deferred closure does not set Result.Error from the captured err", c.fnAt(hit))
 	} else {
 		// the deferred store is guarded by err != nil on the same cell
@@ -268,7 +270,13 @@ func runC06Hit(c *Ctx, a *attackAnchors) {
 	// ---- code only on success
 	const rCode = "Result.Code is stored once, from the response's StatusCode, and only after Do, ReadAll and the drain all succeeded (a failed exchange never carries a status)"
 	var codeStores []*ssa.Store
-	for _, fn := range withAnon(hit) {
+	hitScope := withAnon(hit)
+	for _, g := range inlinedRegion(c.P, hit) {
+		if g != hit {
+			hitScope = append(hitScope, withAnon(g)...)
+		}
+	}
+	for _, fn := range hitScope {
 		eachInstr(fn, func(i ssa.Instruction) {
 			if st, ok := resultFieldStore(i, "Code"); ok {
 				codeStores = append(codeStores, st)
@@ -316,11 +324,11 @@ func runC06Hit(c *Ctx, a *attackAnchors) {
 		"BytesOut":  {"req.ContentLength"},
 		"Code":      {"resp.StatusCode"},
 		"Headers":   {"resp.Header"},
-		"Error":     {"resp.Status"},
+		"Error":     {"resp.Status", "invoke:error.Error()"}, // the status text of a non-2xx/3xx response, or the text of the error that ended the exchange
 		"Timestamp": nil, "Seq": nil, "Latency": nil,
 	}
 	var reqVal ssa.Value
-	eachInstr(hit, func(i ssa.Instruction) {
+	eachInstrI(hit, func(i ssa.Instruction) {
 		if call, ok := i.(*ssa.Call); ok && callName(&call.Call) == "(*lib.Target).Request" {
 			for _, r := range refs(call) {
 				if ex, isEx := r.(*ssa.Extract); isEx && ex.Index == 0 {
@@ -350,7 +358,7 @@ func runC06Hit(c *Ctx, a *attackAnchors) {
 		return describeVal(v)
 	}
 	seenF := map[string]bool{}
-	eachInstr(hit, func(i ssa.Instruction) {
+	eachInstrI(hit, func(i ssa.Instruction) {
 		st, ok := i.(*ssa.Store)
 		if !ok {
 			return
@@ -476,7 +484,18 @@ func runC06Hit(c *Ctx, a *attackAnchors) {
 			}
 			// on every path from hit's entry to the transport
 			var gate ssa.Instruction = call
-			if call.Parent() != hit {
+			inlined := false
+			for f := call.Parent(); f != hit; {
+				cs := singleSite(c.P, f)
+				if cs == nil {
+					break
+				}
+				f = cs.Parent()
+				if f == hit {
+					inlined = true
+				}
+			}
+			if call.Parent() != hit && !inlined {
 				eachInstr(hit, func(i ssa.Instruction) {
 					if ci, ok := i.(*ssa.Call); ok && ci.Call.StaticCallee() == call.Parent() {
 						gate = ci
@@ -564,6 +583,127 @@ func runC06Hit(c *Ctx, a *attackAnchors) {
 	c06HeaderCase(c)
 	c06Request(c)
 	c06Redirects(c)
+}
+
+// c06ErrorReturnStyle: hit delegates the exchange to a single-site helper that RETURNS the error
+// (`err := a.roundTrip(…); if err != nil { res.Error = err.Error() }`) instead of leaving it in a
+// variable read by a deferred closure. Every fallible call of the helper must test its error, and
+// its error edge must lead — through the helper's return and hit's test — to the conversion store
+// before hit returns. Reports its own obligations; returns false when the shape is not present.
+func c06ErrorReturnStyle(c *Ctx, hit *ssa.Function, rErr string) bool {
+	var errStore *ssa.Store
+	var hcall *ssa.Call
+	eachInstr(hit, func(i ssa.Instruction) {
+		st, ok := resultFieldStore(i, "Error")
+		if !ok {
+			return
+		}
+		call, isCall := st.Val.(*ssa.Call)
+		if !isCall || !call.Call.IsInvoke() || call.Call.Method.Name() != "Error" {
+			return
+		}
+		v := call.Call.Value
+		if ld, isL := isLoad(v); isL {
+			if al, isAl := ld.X.(*ssa.Alloc); isAl {
+				for _, r := range refs(al) {
+					if s2, isS := r.(*ssa.Store); isS && s2.Addr == ssa.Value(al) {
+						v = s2.Val
+					}
+				}
+			}
+		}
+		var hc *ssa.Call
+		switch x := v.(type) {
+		case *ssa.Call:
+			hc = x
+		case *ssa.Extract:
+			hc, _ = x.Tuple.(*ssa.Call)
+		}
+		if hc == nil {
+			return
+		}
+		if h := hc.Call.StaticCallee(); h != nil && singleSite(c.P, h) == hc {
+			// guarded by err != nil on that very value
+			for _, f := range factsAt(st.Block()) {
+				if bo, isBo := f.Cond.(*ssa.BinOp); isBo && bo.Op == token.NEQ && f.Val && isNilConst(bo.Y) && (bo.X == call.Call.Value || bo.X == v) {
+					errStore, hcall = st, hc
+				}
+			}
+		}
+	})
+	if errStore == nil {
+		return false
+	}
+	h := hcall.Call.StaticCallee()
+	c.Saw("function " + shortFn(h))
+	c.Pass("no-lost-error:(*lib.Attacker).hit:deferred", rErr, "Result.Error = err.Error() when the exchange helper returned an error", c.at(errStore))
+	errT := types.Universe.Lookup("error").Type()
+	n := 0
+	for _, g := range inlinedRegion(c.P, h) {
+		eachInstr(g, func(i ssa.Instruction) {
+			call, ok := i.(*ssa.Call)
+			if !ok {
+				return
+			}
+			if f := call.Call.StaticCallee(); f != nil && singleSite(c.P, f) == call {
+				return // a nested helper: its own calls are judged
+			}
+			var ev ssa.Value
+			if types.Identical(call.Type(), errT) {
+				ev = call
+			}
+			for _, r := range refs(call) {
+				if ex, isEx := r.(*ssa.Extract); isEx && types.Identical(ex.Type(), errT) {
+					ev = ex
+				}
+			}
+			if tup, isTup := call.Type().(*types.Tuple); isTup && ev == nil {
+				for k := 0; k < tup.Len(); k++ {
+					if types.Identical(tup.At(k).Type(), errT) {
+						c.Fail("no-lost-error:(*lib.Attacker).hit:"+callLabel(call), rErr, "the error result of "+callLabel(call)+" is discarded", c.at(call))
+						n++
+						return
+					}
+				}
+			}
+			if ev == nil {
+				return
+			}
+			n++
+			key := "no-lost-error:(*lib.Attacker).hit:" + callLabel(call)
+			ifi := errNotNilIfI(call)
+			if ifi == nil {
+				c.Fail(key, rErr, "the error of "+callLabel(call)+" is never tested", c.at(call))
+				return
+			}
+			// the helper hands this error back…
+			returned := false
+			for _, gg := range inlinedRegion(c.P, h) {
+				eachInstr(gg, func(j ssa.Instruction) {
+					if r, isR := j.(*ssa.Return); isR {
+						for _, res := range r.Results {
+							if types.Identical(res.Type(), errT) && flowsFrom(res, func(x ssa.Value) bool { return x == ev }) {
+								returned = true
+							}
+						}
+					}
+				})
+			}
+			// …and from its error edge hit cannot return without converting it
+			set := exploreBlock(ifi.Block().Succs[0], func(x ssa.Instruction) bool { return x == ssa.Instruction(errStore) })
+			bad := !returned || len(returnsIn(set)) > 0
+			for x := range set {
+				if _, isIf := x.(*ssa.If); isIf {
+					bad = true
+				}
+			}
+			c.Check(!bad, key, rErr, "tested; returned; converted to Result.Error before hit returns", "the error of "+callLabel(call)+" does not reach Result.Error (not returned by the helper, or hit can return without converting it)", c.at(call))
+		})
+	}
+	if n < 5 {
+		c.Fail("no-lost-error:(*lib.Attacker).hit", rErr, fmt.Sprintf("only %d fallible calls found in the exchange helper; expected targeter, Request, Do, ReadAll, Copy", n), c.fnAt(h))
+	}
+	return true
 }
 
 func stripIface(v ssa.Value) ssa.Value {
